@@ -32,7 +32,9 @@ def _find_box_function(mod):
     raise AnalysisError('C11: cannot find the cell-list routine (loop over 3-tuples)')
 
 
-def run(ctx):
+def cell_list(ctx, rule):
+    """Rules R1-R3: the cell list enumerates every pair the all-pairs rule
+    would test.  ``rule(name)`` maps R1/R2/R3 to the caller's rule id."""
     prog = ctx.prog
     mod = prog.mod('bonds')
     qual, fn, loop = _find_box_function(mod)
@@ -46,11 +48,11 @@ def run(ctx):
                             + norm(loop.iter)[:80])
     offsets = [tuple(o) if isinstance(o, (list, tuple)) else o for o in offsets]
     full = [d for d in itertools.product((-1, 0, 1), repeat=3) if d != (0, 0, 0)]
-    ctx.ob('C11.R1', 'stencil:well-formed',
+    ctx.ob(rule('R1'), 'stencil:well-formed',
            all(isinstance(o, tuple) and len(o) == 3 and o in full for o in offsets),
            'every stencil entry is a non-zero offset in {-1,0,1}^3',
            mod, loop, detail=str(offsets))
-    ctx.ob('C11.R1', 'stencil:no-duplicates', len(set(offsets)) == len(offsets),
+    ctx.ob(rule('R1'), 'stencil:no-duplicates', len(set(offsets)) == len(offsets),
            'no neighbour direction is listed twice (a duplicate examines pairs twice)',
            mod, loop)
     for d in full:
@@ -58,7 +60,7 @@ def run(ctx):
         if d > neg:
             continue  # one obligation per unordered direction pair
         n = (d in offsets) + (neg in offsets)
-        ctx.ob('C11.R1', 'stencil:dir:%s' % (d,), n == 1,
+        ctx.ob(rule('R1'), 'stencil:dir:%s' % (d,), n == 1,
                'exactly one of %s / %s is in the half-space stencil (found %d): '
                'pairs of atoms in cells adjacent in this direction are examined '
                'exactly once' % (d, neg, n), mod, loop)
@@ -77,7 +79,7 @@ def run(ctx):
                 and isinstance(outer.target, ast.Tuple) and len(outer.target.elts) == 2
                 and isinstance(outer.target.elts[0], ast.Tuple)
                 and len(outer.target.elts[0].elts) == 3)
-    ctx.ob('C11.R1', 'cells:iterate-all', ok_outer,
+    ctx.ob(rule('R1'), 'cells:iterate-all', ok_outer,
            'the cell loop iterates every (cell index triple, atom list) of the cell map',
            mod, outer)
     if not ok_outer:
@@ -93,7 +95,7 @@ def run(ctx):
     allpairs_fn = None
     if same_ok:
         allpairs_fn = common.resolve_self_method(mod, 'BondMaker', same[0].value)
-    ctx.ob('C11.R1', 'cells:same-cell-all-pairs', same_ok and allpairs_fn is not None,
+    ctx.ob(rule('R1'), 'cells:same-cell-all-pairs', same_ok and allpairs_fn is not None,
            'each cell is passed once, unconditionally, to the all-pairs routine',
            mod, outer)
     # neighbour lookup boxes[x+dx, y+dy, z+dz]
@@ -109,7 +111,7 @@ def run(ctx):
             if not (isinstance(elt, ast.BinOp) and isinstance(elt.op, ast.Add)
                     and {norm(elt.left), norm(elt.right)} == want):
                 lk_ok = False
-    ctx.ob('C11.R1', 'cells:neighbour-index', lk_ok,
+    ctx.ob(rule('R1'), 'cells:neighbour-index', lk_ok,
            'the neighbour cell is looked up at (cell[i] + offset[i]) for each axis i '
            'in matching positions', mod, lookup or loop)
     # cross-cell disjoint call with (value, value2)
@@ -123,7 +125,7 @@ def run(ctx):
     disjoint_fn = None
     if len(cross) == 1:
         disjoint_fn = common.resolve_self_method(mod, 'BondMaker', cross[0])
-    ctx.ob('C11.R1', 'cells:cross-cell-disjoint',
+    ctx.ob(rule('R1'), 'cells:cross-cell-disjoint',
            len(cross) == 1 and disjoint_fn is not None,
            'the (cell, neighbour cell) pair is passed exactly once to the '
            'disjoint-sets routine', mod, loop)
@@ -131,7 +133,7 @@ def run(ctx):
     handlers = [h for h in ast.walk(loop) if isinstance(h, ast.ExceptHandler)]
     h_ok = all(norm(h.type) == 'KeyError' and len(h.body) == 1
                and isinstance(h.body[0], ast.Continue) for h in handlers)
-    ctx.ob('C11.R1', 'cells:missing-neighbour-skipped', h_ok and len(handlers) <= 1,
+    ctx.ob(rule('R1'), 'cells:missing-neighbour-skipped', h_ok and len(handlers) <= 1,
            'only the KeyError of a missing neighbour cell is caught, and it only skips',
            mod, loop)
     # every atom is put into exactly one cell
@@ -154,7 +156,7 @@ def run(ctx):
                             and isinstance(inner.args[0], ast.Tuple):
                         key_vars = [norm(e) for e in inner.args[0].elts]
                         fill_ok = True
-    ctx.ob('C11.R1', 'cells:every-atom-binned', fill_ok,
+    ctx.ob(rule('R1'), 'cells:every-atom-binned', fill_ok,
            'every atom of the input list is appended, unconditionally, to the cell '
            'keyed by its index triple', mod, fill or fn)
 
@@ -184,16 +186,16 @@ def run(ctx):
                     divisors.add(norm(quot.right))
                 else:
                     why = 'index is not floor(coordinate / edge): ' + norm(val)
-            ctx.ob('C11.R3', 'cell-index:' + kv, ok,
+            ctx.ob(rule('R3'), 'cell-index:' + kv, ok,
                    'cell index is floor(coordinate / cell edge) (truncation or rounding '
                    'mis-bins negative coordinates)' + ('' if ok else ' - ' + why),
                    mod, defs[0] if defs else fill)
             axes_seen.append(axis)
-        ctx.ob('C11.R3', 'cell-index:axes', sorted(a for a in axes_seen if a) == ['x', 'y', 'z'],
+        ctx.ob(rule('R3'), 'cell-index:axes', sorted(a for a in axes_seen if a) == ['x', 'y', 'z'],
                'the three index components use the three distinct coordinates', mod, fill)
-        ctx.ob('C11.R3', 'cell-index:one-edge', len(divisors) == 1,
+        ctx.ob(rule('R3'), 'cell-index:one-edge', len(divisors) == 1,
                'all three axes are divided by the same cell edge', mod, fill)
-    ctx.need('C11.R3', 3)
+    ctx.need(rule('R3'), 3)
 
     # ---------------------------------------------------------------- R2 edge
     rules = {}
@@ -222,14 +224,14 @@ def run(ctx):
     msd = env.get('self.max_sq_distance')
     if not isinstance(msd, (int, float)):
         raise AnalysisError('C11.R2: max_sq_distance not foldable')
-    ctx.ob('C11.R2', 'max-sq-distance-covers-rules', msd >= max_rule_sq - 1e-12,
+    ctx.ob(rule('R2'), 'max-sq-distance-covers-rules', msd >= max_rule_sq - 1e-12,
            'the pre-filter distance (%.4f) is >= every squared rule distance (max %.4f); '
            'otherwise the pre-filter rejects pairs the rule would bond' % (msd, max_rule_sq),
            mod, chk, detail=str(used_sq))
     # squared tables agree with the plain ones
     if isinstance(sqtbl, dict):
         for k, v in dist_tbl.items():
-            ctx.ob('C11.R2', 'squared-table:' + k,
+            ctx.ob(rule('R2'), 'squared-table:' + k,
                    k in sqtbl and abs(sqtbl[k] - v * v) < 1e-9,
                    'distances_squared[%s] equals distances[%s]**2' % (k, k), mod, chk)
     # the cell edge
@@ -240,12 +242,21 @@ def run(ctx):
     edge = ConstEval(env).ev(edge_defs[0].value)
     if not isinstance(edge, (int, float)):
         raise AnalysisError('C11.R2: cell edge not foldable: ' + norm(edge_defs[0].value))
-    ctx.ob('C11.R2', 'cell-edge>=longest-rule', edge * edge >= max(msd, max_rule_sq),
+    ctx.ob(rule('R2'), 'cell-edge>=longest-rule', edge * edge >= max(msd, max_rule_sq),
            'cell edge %.4f >= longest bonding distance %.4f, so bonded atoms are never '
            'more than one cell apart' % (edge, max(msd, max_rule_sq) ** 0.5),
            mod, edge_defs[0])
     ctx.note('cell_edge', edge)
     ctx.note('rule_distances_squared', used_sq)
+    return dict(mod=mod, fn=fn, env=env, dist_tbl=dist_tbl, chk=chk,
+                allpairs_fn=allpairs_fn, disjoint_fn=disjoint_fn)
+
+
+def run(ctx):
+    prog = ctx.prog
+    shared = cell_list(ctx, lambda name: 'C11.' + name)
+    mod, fn, env, dist_tbl, chk = (shared[k] for k in ('mod', 'fn', 'env', 'dist_tbl', 'chk'))
+    allpairs_fn, disjoint_fn = shared['allpairs_fn'], shared['disjoint_fn']
 
     # ---------------------------------------------------------------- R4
     # check_distance: only symmetric uses of (atom1, atom2)
@@ -300,40 +311,8 @@ def run(ctx):
                 mod, r)
     # the pair routine
     pair = mod.func('BondMaker._find_bonds_for_atoms')
-    mk_calls = [c for c in calls_in(pair) if last_attr(c) == 'make_bond']
-    pair_params = [a.arg for a in pair.args.args if a.arg != 'self']
-
-    def fact_kind(expr, positive):
-        """Classify one dominating fact of the pair routine."""
-        if isinstance(expr, ast.Call) and last_attr(expr) == 'check_distance' and \
-                sorted(norm(a) for a in expr.args) == sorted(pair_params):
-            return 'criterion' if positive else 'not-criterion'
-        if isinstance(expr, ast.Compare) and len(expr.ops) == 1:
-            op, lhs, rhs = expr.ops[0], expr.left, expr.comparators[0]
-            if isinstance(op, (ast.IsNot, ast.NotEq)) and positive and \
-                    sorted([norm(lhs), norm(rhs)]) == sorted(pair_params):
-                return 'irreflexive'
-            if isinstance(op, ast.In) and not positive and isinstance(rhs, ast.Attribute) \
-                    and rhs.attr == 'bonded_atoms' and \
-                    sorted([norm(lhs), norm(rhs.value)]) == sorted(pair_params):
-                return 'not-yet-bonded'
-            if isinstance(op, ast.Eq) and positive and isinstance(lhs, ast.Attribute) \
-                    and lhs.attr == 'element' and norm(lhs.value) in pair_params \
-                    and isinstance(rhs, ast.Constant) and rhs.value == 'S':
-                return 'sulfur:' + norm(lhs.value)
-        return 'other:%s%s' % ('' if positive else 'not ', norm(expr))
-
-    ok_pair = False
-    kinds = []
-    if len(mk_calls) == 1:
-        kinds = sorted(fact_kind(e, p) for e, p in facts_at(mk_calls[0], pair))
-        ok_pair = 'criterion' in kinds and \
-            set(kinds) <= {'criterion', 'irreflexive', 'not-yet-bonded'}
-    ctx.ob('C11.R4', 'pair:bond-iff-criterion', ok_pair,
-           'a bond is made exactly under the positive pair criterion: the call of make_bond is '
-           'dominated by the criterion and by nothing else that depends on the pair '
-           '(dominating facts: %s)' % kinds, mod,
-           mk_calls[0] if mk_calls else pair)
+    fact_kind = common.pair_fact_kind(pair)
+    common.check_pair_routine(ctx, 'C11.R4', mod)
     # the skip-if-already-bonded shortcut may only return
     for node in walk_no_nested(pair):
         if isinstance(node, ast.If) and 'bonded_atoms' in norm(node.test):
